@@ -174,11 +174,85 @@ class Lock:
         self.f.close()
 
 
+def gc_work(keep: List[str], prefixes=("ws-", "corpus-quick-", "corpus-thorough-"), max_age_s: int = 3 * 3600):
+    """Remove stale work directories (other driver builds, scratch repos) to bound disk use."""
+    now = time.time()
+    try:
+        names = os.listdir(WORK)
+    except OSError:
+        return
+    for n in names:
+        if n.endswith(".lock") or not any(n.startswith(p) for p in prefixes):
+            continue
+        full = os.path.join(WORK, n)
+        if full in keep or not os.path.isdir(full):
+            continue
+        marker = os.path.join(full, ".used")
+        try:
+            age = now - os.path.getmtime(marker if os.path.exists(marker) else full)
+        except OSError:
+            continue
+        if age > max_age_s:
+            shutil.rmtree(full, ignore_errors=True)
+            try:
+                os.remove(full + ".lock")
+            except OSError:
+                pass
+
+
+def touch_used(d: str):
+    with open(os.path.join(d, ".used"), "w") as f:
+        f.write(str(time.time()))
+
+
+NEED_ALL = None
+
+
+def load_unit(facts_dir: str, stem: str, need) -> dict:
+    """Load one fact file, through a per-derive pickle cache so that a check only parses what it needs."""
+    import pickle
+    src = os.path.join(facts_dir, stem + ".json")
+    cdir = os.path.join(facts_dir, ".cache", stem)
+    stamp = os.path.join(cdir, "stamp")
+    mt = str(os.path.getmtime(src))
+    fresh = False
+    try:
+        fresh = open(stamp).read() == mt
+    except OSError:
+        pass
+    if not fresh:
+        with open(src) as f:
+            u = json.load(f)
+        shutil.rmtree(cdir, ignore_errors=True)
+        os.makedirs(cdir, exist_ok=True)
+        by: Dict[str, list] = {}
+        for g in u.get("generated", []):
+            by.setdefault(g["derive"], []).append(g)
+        base = {k: v for k, v in u.items() if k != "generated"}
+        base["_derives"] = sorted(by)
+        with open(os.path.join(cdir, "base.pkl"), "wb") as f:
+            pickle.dump(base, f, protocol=pickle.HIGHEST_PROTOCOL)
+        for d, items in by.items():
+            with open(os.path.join(cdir, "d_%s.pkl" % d), "wb") as f:
+                pickle.dump(items, f, protocol=pickle.HIGHEST_PROTOCOL)
+        with open(stamp, "w") as f:
+            f.write(mt)
+    with open(os.path.join(cdir, "base.pkl"), "rb") as f:
+        u = pickle.load(f)
+    gen = []
+    for d in u["_derives"]:
+        if need is None or d in need:
+            with open(os.path.join(cdir, "d_%s.pkl" % d), "rb") as f:
+                gen += pickle.load(f)
+    u["generated"] = gen
+    return u
+
+
 def ws_key() -> str:
     return hashlib.sha256((REPO + "|" + driver_hash()).encode()).hexdigest()[:10]
 
 
-def extract_repo() -> List[dict]:
+def extract_repo(need=None) -> List[dict]:
     """Facts of every compilation unit of the repository workspace (lib + tests), from REPO's working tree."""
     key = ws_key()
     base = os.path.join(WORK, "ws-" + key)
@@ -208,11 +282,12 @@ def extract_repo() -> List[dict]:
                 raise ToolError("fact files missing after forced recompilation: %s" % missing)
         out = []
         for s in stems:
-            with open(os.path.join(facts, s + ".json")) as f:
-                d = json.load(f)
+            d = load_unit(facts, s, need)
             d["_stem"] = s
             d["_origin"] = "repo"
             out.append(d)
+        touch_used(base)
+        gc_work([base])
         if len(out) < 20:
             raise ToolError("only %d compilation units analysed in the repository workspace (expected >= 20)" % len(out))
         return out
